@@ -20,9 +20,12 @@ class Chooser:
         self.prefix = list(prefix)
         self.expect = list(expect)      # [(n, label)] recorded when the prefix was first produced
         self.trace = []                 # [(n, label, choice)]
+        self.costs = []
 
-    def choose(self, n, label=""):
+    def choose(self, n, label="", cost=1):
+        """cost: weight of a non-default answer at this point towards the deviation bound"""
         i = len(self.trace)
+        self.costs.append(cost)
         if n <= 0:
             raise ValueError("choice point without alternatives")
         if i < len(self.prefix):
@@ -63,7 +66,7 @@ def explore(driver, *, max_dev=None, max_runs=None):
             base = [t[2] for t in tr[:i]]
             for alt in range(n - 1, 0, -1):
                 newp = (*base, alt)
-                if max_dev is not None and sum(1 for c in newp if c) > max_dev:
+                if max_dev is not None and sum(ch.costs[j] for j, c in enumerate(newp) if c) > max_dev:
                     continue
                 stack.append((newp, tuple((t[0], t[1]) for t in tr[:i + 1])))
 
